@@ -133,7 +133,7 @@ claim("C04", "other", "dominance guard (!= nil) with kill check on every use of 
 claim("C11", "other", "provenance of span fields in Edit literals; index-variable side separation; opcode/field table; exhaustiveness of EditOp switches (typed AST)",
       "Decides structural clauses: every Edit the script builder creates takes X from a slice expression over lhs and Y from one over rhs ('the very spans', which value-comparing "
       "tests cannot see) and bounds each span with its own side's offsets; every Edit literal in packages slice and mdiff sets exactly the fields documented for its opcode; "
-      "every switch over EditOp in non-test code handles all four opcodes or has a default arm that panics or returns an error. Does NOT decide that applying the script yields "
+      "every switch over EditOp in non-test code handles all four opcodes or has a default arm that panics or returns an error. (cursor families) a cursor family of the builder that indexes or bounds spans of an input never also indexes the common subsequence; (R-SIBLING-GUARD) guards before a comparison of an element of each input constrain both indices or neither. Does NOT decide that applying the script yields "
       "rhs, minimality (LCS length), canonical form, emptiness iff equal, or exact span bounds.",
       BASE_NOTE,
       "DESIGN.md section 3, C11")
